@@ -23,13 +23,19 @@ pub struct Cell {
     pub from: Joints,
     pub to: Joints,
     pub home: Joints,
+    pub table: Vec<(usize, usize, i64)>,   // special distances (um; <= -1e6: never collides), as given to the library
+    pub def_env_um: i64,
 }
 
 /// irb2400 with small cubes on the link origins, an axial tool, a base block and one obstacle box
 pub fn cell(obstacle: Option<WBox>, safety_um: i64) -> Cell { cell_with(obstacle, safety_um, 6.0, false) }
 
 /// `j6_limit`: joint 6 may turn +- this many radians; `wide`: generous J2/J3/J5 ranges (more landing strategies)
-pub fn cell_with(obstacle: Option<WBox>, safety_um: i64, j6_limit: f64, wide: bool) -> Cell {
+pub fn cell_with(obstacle: Option<WBox>, safety_um: i64, j6_limit: f64, wide: bool) -> Cell { cell_full(obstacle, safety_um, j6_limit, wide, 0) }
+
+/// `fragile_um`: when positive, the obstacle is a fragile object: wrist (links 5, 6) and tool have to stay that far
+/// from it (special distances towards an environment object, larger than the general one)
+pub fn cell_full(obstacle: Option<WBox>, safety_um: i64, j6_limit: f64, wide: bool, fragile_um: i64) -> Cell {
     let p = Parameters::irb2400_10();
     let tool_iso = Iso { r: oracle::I3, t: [0.0, 0.0, 0.15] };
     let base_iso = Iso::identity();
@@ -67,9 +73,17 @@ pub fn cell_with(obstacle: Option<WBox>, safety_um: i64, j6_limit: f64, wide: bo
     let mut special: HashMap<(u16, u16), f32> = HashMap::new();
     special.insert((0, 101), -1.0);
     special.insert((1, 101), -1.0);
+    let mut table: Vec<(usize, usize, i64)> = vec![(0, BASE, -1_000_000), (1, BASE, -1_000_000)];
+    if fragile_um > 0 && obstacle.is_some() {
+        for (i, body) in [4usize, 5, TOOL].iter().enumerate() {
+            // (both key orders occur in user code)
+            if i % 2 == 0 { special.insert((*body as u16, ENV0 as u16), fragile_um as f32 / 1e6); } else { special.insert((ENV0 as u16, *body as u16), fragile_um as f32 / 1e6); }
+            table.push((*body, ENV0, fragile_um));
+        }
+    }
     let safety = SafetyDistances { to_environment: safety_um as f32 / 1e6, to_robot_default: 0.0, special_distances: special, mode: CheckMode::FirstCollisionOnly };
     let kws = KinematicsWithShape::with_safety(p, Constraints::new(from, to, BY_PREV), joint_meshes, base_mesh, base_na, tool_mesh, tool_iso.to_na(), env, safety);
-    Cell { kws, reference, from, to, home }
+    Cell { kws, reference, from, to, home, table, def_env_um: safety_um }
 }
 
 fn down_pose(x: f64, y: f64, z: f64, yaw: f64) -> Pose {
@@ -157,11 +171,11 @@ pub fn record(output: &str) {
     quiet_panics();
     let mut out = Out::create(output);
     let mut r = rng(1212);
-    let n_cases = if thorough() { 96 } else { 12 };
+    let n_cases = if thorough() { 96 } else { 16 };
     let mut case_no = 0usize;
     let reps = if thorough() { 3 } else { 1 };
     for k in 0..n_cases {
-        let obstacle_class = ["free", "blocking", "grazing", "at-stroke-pose", "wrist-flip", "branch-blocking"][k % 6];
+        let obstacle_class = ["free", "blocking", "grazing", "at-stroke-pose", "wrist-flip", "branch-blocking", "repeated-poses", "fragile"][k % 8];
         let y0 = r.gen_range(-0.25..-0.1);
         let y1 = r.gen_range(0.1..0.25);
         let x = r.gen_range(0.85..1.0);
@@ -173,6 +187,8 @@ pub fn record(output: &str) {
             // a thin plate exactly at the second stroke pose: only that pose (not its interpolated neighbours, which are
             // a whole check step away) touches it
             "at-stroke-pose" => Some(WBox { c: [x, (y0 + y1) / 2.0, z + 0.03], h: [0.04, 0.002, 0.04] }),   // 3 stroke poses: the middle one
+            // a fragile object 8 cm beside the tool path: far beyond the general distance, inside its own 15 cm
+            "fragile" => Some(WBox { c: [x + 0.04 + 0.015 + 0.08, (y0 + y1) / 2.0, z + 0.03], h: [0.04, 0.03, 0.04] }),
             _ => None,
         };
         let mut nsteps = if obstacle_class == "at-stroke-pose" { 3 } else { 2 + k % 3 };
@@ -181,6 +197,15 @@ pub fn record(output: &str) {
         let mut park = down_pose(x, y1, z + 0.1, yaw);
         let mut obstacle = obstacle;
         let mut j6_limit = 6.0;
+        let mut land = land;
+        if obstacle_class == "repeated-poses" {
+            // landing on the first stroke pose itself, parking on the last one, and a stroke pose given twice
+            nsteps = 4;
+            let ys = [y0, (y0 + y1) / 2.0, (y0 + y1) / 2.0, y1];
+            steps = ys.iter().map(|y| down_pose(x, *y, z, yaw)).collect();
+            land = steps[0];
+            park = steps[3];
+        }
         if obstacle_class == "wrist-flip" {
             // the tool spins by 430 degrees along the stroke while joint 6 may only turn +-137 degrees: somewhere in
             // the middle of the stroke the wrist has to flip, which no Cartesian transition can do (RRT closes the gap)
@@ -194,7 +219,9 @@ pub fn record(output: &str) {
             obstacle = branch_blocker(&land, &steps, &park);
             if obstacle.is_none() { continue; }
         }
-        let cell = cell_with(obstacle, if k % 4 == 3 { 10_000 } else { 0 }, j6_limit, obstacle_class == "branch-blocking");
+        let cell = cell_full(obstacle, if k % 4 == 3 || obstacle_class == "fragile" { 10_000 } else { 0 }, j6_limit, obstacle_class == "branch-blocking", if obstacle_class == "fragile" { 150_000 } else { 0 });
+        let table_json = json!(cell.table.iter().map(|t| json!([t.0, t.1, t.2])).collect::<Vec<_>>());
+        let nenv = cell.kws.body.collision_environment.len();
         let include = k % 2 == 0;
         let max_cost = if obstacle_class == "at-stroke-pose" { 25.0f64.to_radians() } else { [6.0f64, 12.0, 3.0][k % 3].to_radians() };
         // transition coefficients: the defaults, or a configuration that weighs some joints much more
@@ -229,7 +256,8 @@ pub fn record(output: &str) {
                 // (random re-planning is "needed" when the RETURNED plan contains an RRT-closed window; windows of other,
                 //  failing strategies do not count)
                 let head = json!({"ev": "plan", "case": k, "pool": pool, "rep": rep, "obstacle": obstacle_class, "include": include, "nsteps": nsteps,
-                    "windows": {"direct": wins[0], "bisect": wins[1], "rrt": wins[2]}, "max_cost_au": rad2au(max_cost)});
+                    "windows": {"direct": wins[0], "bisect": wins[1], "rrt": wins[2]}, "max_cost_au": rad2au(max_cost),
+                    "table": table_json, "def_env": cell.def_env_um, "def_robot": 0, "nenv": nenv});
                 let mut h = head.clone();
                 match res {
                     None => { h["outcome"] = json!("panic"); out.put(h); outcomes.push(false); }
@@ -265,7 +293,10 @@ pub fn record(output: &str) {
                                 seg_um = ((d.max(if a.drot(b) < 1e-9 { rot } else { 0.0 })) * 1e6).round() as i64;
                             }
                             let cost = if i == 0 { 0.0 } else { transition_costs(&path[i - 1].joints, &w.joints, &coeffs) };
-                            out.put(json!({"ev": "wp", "i": i + 1, "flags": names, "q": au6(&w.joints), "collides": cell.kws.collides(&w.joints),
+                            // distances of all pairs of bodies from brute force (the verdict is TLC's: module Collision)
+                            let pairs: Vec<Value> = scene::brute(&cell.kws.body, cell.kws.kinematics.as_ref(), &w.joints).iter()
+                                .map(|x| json!({"a": x.0, "b": x.1, "d": x.2, "touch": x.3})).collect();
+                            out.put(json!({"ev": "wp", "i": i + 1, "flags": names, "q": au6(&w.joints), "collides": cell.kws.collides(&w.joints), "pairs": pairs,
                                 "from": au6(&cell.from), "to": au6(&cell.to), "is_start": w.joints == cell.home,
                                 "fk_nm": fk_nm, "seg_um": seg_um, "cost_milli": ((cost / max_cost) * 1000.0).round() as i64}));
                         }
